@@ -159,6 +159,17 @@ def cases(tier):
             batch = []
     if batch:
         yield from scalar_batch(batch)
+    # -- strings of two and three characters over one representative per character class (escaping must not depend on
+    #    whether a string is handled character by character or as a whole)
+    reps = ['a', '"', '\\', '\n', '\x00', '\x7f', '\u00e9', '\u2028', '\ud7ff', '\ue000', '\uffff', '\U00010000', '\U0001F600', '\U0010FFFF']
+    mixed = [''.join(t) for k in (2, 3) for t in itertools.product(reps if not q else reps[:2] + reps[3:5] + reps[6:8] + reps[10:13], repeat=k)]
+    for i in range(0, len(mixed), 32):
+        chunk = mixed[i:i + 32]
+        for fmt in ('json', 'json5'):
+            yield fmt, 'mixed-string batch value', list(chunk)
+            yield fmt, 'mixed-string batch key', {c: j for j, c in enumerate(chunk)}
+        cells = [c for c in chunk if '\r' not in c and '\x00' not in c]
+        yield 'csv', 'mixed-string batch cell', [[c, 'x'] for c in cells]
     # -- pairs of syntax characters
     for a, b in itertools.product(SYNTAX, repeat=2):
         s = a + b
@@ -274,7 +285,20 @@ def evaluate(fmt, kind, doc):
             if res is None:
                 return None, doc
             if res[0] == 'first_load_failed':
-                return 'skip', doc
+                if 'batch' not in kind:
+                    return 'skip', doc
+                # one member of the batch is outside the loader's domain: judge the members one by one, so that only
+                # that member is left out
+                items = list(doc.items()) if isinstance(doc, dict) else list(doc)
+                judged = 0
+                for it in items:
+                    sub = dict([it]) if isinstance(doc, dict) else [it]
+                    r1 = roundtrip(fmt, sub, 'one')
+                    if r1 is None:
+                        judged += 1
+                    elif r1[0] != 'first_load_failed':
+                        return describe(fmt, kind, sub, r1), sub
+                return ('skip' if judged == 0 else None), doc
             small = bisect(fmt, kind, doc)
             if small is not doc:
                 res = roundtrip(fmt, small, 'bis') or res
@@ -308,6 +332,56 @@ def history_eval(f1, f2):
     return None
 
 
+# ---- history leg 2: a diff is printed, then an unedited document with the same (process-wide) formatter -------------
+DIFF_THEN = {
+    'json': [({'name': 'report'}, {'name': 'report2'}), ({'name': 'report2'}, {'name': 'report'}), (['ab'], ['abc']), ({'k': 'v'}, {'k2': 'v'}),
+             ('x', 'xy'), ({'a': [1, 2]}, {'a': [1, 2, 3]}), ({'t': 'l1\nl2'}, {'t': 'l1\nl2x'})],
+    'csv': [([['a', 'report']], [['a', 'report2']]), ([['a', 'report2']], [['a', 'report']]), ([['a']], [['a'], ['b']])],
+    'xml': [({'tag': 'a', 'text': 'report'}, {'tag': 'a', 'text': 'report2'}), ({'tag': 'a', 'attrib': {'k': 'v'}}, {'tag': 'a', 'attrib': {'k': 'v2'}}),
+            ({'tag': 'a'}, {'tag': 'a', 'children': [{'tag': 'b'}]})],
+}
+DIFF_THEN['json5'] = DIFF_THEN['json']
+DIFF_THEN['yaml'] = DIFF_THEN['json']
+DIFF_THEN['plist'] = [p for p in DIFF_THEN['json'] if isinstance(p[0], (dict, list))]
+AFTER_DOCS = {
+    'json': [{'author': 'x', 'n': [1, 'two']}, ['s'], 's'], 'csv': [[['a', 'b'], ['1', '2']]],
+    'xml': [{'tag': 'a', 'attrib': {'k': 'v'}, 'text': 't', 'children': [{'tag': 'b'}]}],
+}
+AFTER_DOCS['json5'] = AFTER_DOCS['json']
+AFTER_DOCS['yaml'] = AFTER_DOCS['json'][:2]
+AFTER_DOCS['plist'] = AFTER_DOCS['json'][:2]
+
+
+def diff_then_cases():
+    for fmt in sorted(DIFF_THEN):
+        for pi in range(len(DIFF_THEN[fmt])):
+            for color in (False, True):
+                for f2 in sorted(AFTER_DOCS):
+                    for di in range(len(AFTER_DOCS[f2])):
+                        yield [fmt, pi, color, f2, di]
+
+
+def diff_then_eval(fmt, pi, color, f2, di):
+    """Print the diff of a pair with the format's formatter, then print an unedited document and read it back."""
+    from graphtage.printer import Printer
+    cli.pin_colorama()
+    a, b = DIFF_THEN[fmt][pi]
+    dirp = pairspace.tmpdir()
+    ft = filetype(fmt)
+    ta = ft.build_tree(cli.write_file(dirp, 'dt_a' + EXT[fmt], write_doc(fmt, a)))
+    tb = ft.build_tree(cli.write_file(dirp, 'dt_b' + EXT[fmt], write_doc(fmt, b)))
+    p = Printer(io.StringIO(), ansi_color=color, quiet=True)
+    try:
+        ft.get_default_formatter().print(p, ta.diff(tb))
+    except Exception as ex:  # noqa  (rendering failures are C13's subject)
+        return None
+    res = roundtrip(f2, AFTER_DOCS[f2][di], 'dt')
+    if res is not None and res[0] != 'first_load_failed':
+        return {'key': f'{res[0]} @ {f2} formatter : unedited document printed after a {fmt} diff in the same process',
+                'detail': f'after printing {a!r} -> {b!r} as {fmt} (colour={color}): {res[1]}'}
+    return None
+
+
 def _shard(i, n, tier, payload):
     r = Result()
     per = {}
@@ -337,6 +411,15 @@ def _shard(i, n, tier, payload):
             r.fail(fail['key'], {'history': [f1, f2]}, fail['detail'], order=10 ** 8 + j)
         else:
             r.outcomes.add(h(('hist', f1, f2)))
+    for j, case in enumerate(diff_then_cases()):
+        if j % n != i:
+            continue
+        r.evaluations += 1
+        fail = diff_then_eval(*case)
+        if fail:
+            r.fail(fail['key'], {'diff_then': case}, fail['detail'], order=2 * 10 ** 8 + j)
+        else:
+            r.outcomes.add(h(('diff_then', json.dumps(case))))
     r.extra['documents_per_format'] = per
     r.extra['outside_domain_skipped'] = skipped
     return r
@@ -351,6 +434,8 @@ def run(ctx):
 def replay(case):
     if 'history' in case:
         return history_eval(*case['history'])
+    if 'diff_then' in case:
+        return diff_then_eval(*case['diff_then'])
     doc = json.loads(case['doc_json'])
     fail, _ = evaluate(case['fmt'], case['kind'], doc)
     return None if fail == 'skip' else fail
